@@ -206,7 +206,17 @@ def make_pool(spec):
     global _SPEC
     _SPEC = spec
     ctx = multiprocessing.get_context('fork')
-    return cf.ProcessPoolExecutor(max_workers=NPROC, mp_context=ctx)
+    ex = cf.ProcessPoolExecutor(max_workers=NPROC, mp_context=ctx)
+    _ALL_POOLS.append(ex)
+    return ex
+
+
+_ALL_POOLS = []
+
+
+def close_all_pools():
+    for ex in list(_ALL_POOLS):
+        close_pool(ex)
 
 
 def close_pool(ex):
@@ -215,8 +225,10 @@ def close_pool(ex):
     for ever (seen with CPython 3.12.1 when futures failed), which then hangs
     the interpreter at exit: terminate the workers explicitly."""
     procs = list((getattr(ex, '_processes', None) or {}).values())
+    if ex in _ALL_POOLS:
+        _ALL_POOLS.remove(ex)
     try:
-        close_pool(ex)
+        ex.shutdown(wait=False, cancel_futures=True)
     except Exception:
         pass
     for p in procs:
